@@ -120,3 +120,10 @@ impl From<core::array::TryFromSliceError> for StunError {
     #[verifier::external_body]
     fn from(e: core::array::TryFromSliceError) -> StunError { unimplemented!() }
 }
+// the shared byte vector with contents `s` (a Vec / Arc<Vec> is its contents: nothing in these units observes capacity or address)
+pub open spec fn vx_arc_vec(s: Seq<u8>) -> std::sync::Arc<Vec<u8>> { choose|a: std::sync::Arc<Vec<u8>>| a@ == s }
+#[verifier::external_body]
+pub proof fn axiom_arc_vec_ext(a: std::sync::Arc<Vec<u8>>, b: std::sync::Arc<Vec<u8>>)
+    ensures a@ == b@ ==> a == b,
+{}
+pub proof fn lemma_arc_vec(a: std::sync::Arc<Vec<u8>>) ensures vx_arc_vec(a@) == a { axiom_arc_vec_ext(a, vx_arc_vec(a@)); }
